@@ -9,6 +9,7 @@ var modePrefixes = []string{
 	"<?php \"", "<?php `", "<?php <<<A\n", "<?php <<<'A'\n", "<?php <<<\"A\"\n",
 	"<?php $a->", "<?php \"$a", "<?php \"$a[", "<?php \"${", "<?php \"{$",
 	"<?php __halt_compiler", "<?php //", "<?php #", "<?php /*", "<?php '",
+	"<?php \"$a[-", "<?php \"$a->", "<?php <<<A\n$a[",
 }
 
 // PHP-mode prefixes (numbers, variables, names, brackets, close tag) and prefixes that
